@@ -8,6 +8,7 @@ CONSTANTS
   SpellNames = {}
   EmitTrees = FALSE
   Alpha = "A"
+  Contexts = {}
   MaxLen = 6
   TailLen = 0
   DeepReps = {}
